@@ -2,6 +2,9 @@ import BertE.Gen.Reactor
 import BertE.Model.Reactor
 import BertE.Lemmas.Reactor
 import BertE.Drv.C07
+import BertE.Lemmas.EvalGates
+import BertE.Drv.Eval
+import BertE.Props.C06
 /-
 C07 — only the right people can switch options on.
 
@@ -504,5 +507,99 @@ example : (handleComments (reg0.withCmdLine ["bypass_jira_check"]) ⟨["admin"],
 /-- the tables of the current source are not empty -/
 example : genRegistry.options.length ≥ 2 ∧ (genRegistry.options.any (·.privileged)) = true ∧
     (genRegistry.options.any (·.authored)) = true ∧ BertE.Gen.Reactor.bypassHelpers ≠ [] := by decide
+
+end BertE.C07
+
+
+/-! ### End to end: options inside the composed evaluation (`Model/Eval.lean`)
+
+`evalPr` reads the options with `handleComments c.reg (envFor c p) (seenComments c p)`: the registry of the
+settings, the admins of the settings, the AUTHOR OF THE PULL REQUEST ON THE HOST, its comments as the host lists
+them (plus the greeting the robot has just posted). Everything the evaluation does with an option goes through
+`Result.options` (`evalPr_options`). -/
+namespace BertE.C07
+open BertE.Reactor BertE.Eval BertE.Flow
+
+/-- **C07, end to end (non-interference).** Whatever the evaluation does, a privileged option differs from its
+    default (command line included) in the settings it runs with ONLY IF a comment of the pull request, addressed
+    to the robot and written by a configured admin who is not the author of the pull request, names it: comments
+    of the author, of non-admins, and text not addressed to the robot cannot switch it on. -/
+theorem C07_e2e_priv {c : Eval.Cfg} (hown : HandlersOwnKey c.reg)
+    {h : Host} {s : Sys} {id : Nat} {orc : List Bool} {sel : List Nat} {st : State}
+    (ho : (evalPr c h s id orc sel).options = some st)
+    {k : String} {o : OptSpec} (hk : c.reg.findOpt k = some o) (hp : o.privileged = true)
+    (hne : st.get k ≠ (initState c.reg).get k) :
+    ∃ p, h.pr id = some p ∧ ∃ cm ∈ seenComments c p, AdminNotAuthor (envFor c p) cm.author ∧
+      names (envFor c p) cm.text k := by
+  obtain ⟨p, hp', hok⟩ := evalPr_options ho
+  have hst : (handleCommentsWith (keywordsOf (envFor c p).pfx) (commandOf (envFor c p).pfx) c.reg (envFor c p)
+      (seenComments c p)).state? = some st := by
+    have : handleComments c.reg (envFor c p) (seenComments c p) = .ok st := hok
+    unfold handleComments at this
+    rw [this]; rfl
+  obtain ⟨cm, hcm, hadm, hnames⟩ := C07_priv hown hst hk hp hne
+  exact ⟨p, hp', cm, hcm, hadm, hnames⟩
+
+/-- **C07, end to end: entering on a bypass of the build gate.** If a pull request enters (queue or direct merge)
+    although a build key is configured and NOT every integration tip of the updated clone is SUCCESSFUL in the
+    host's table, then `bypass_build_status` is on by default (command line), or the per-author settings of its
+    author grant it, or a comment by an admin who is not its author names it. -/
+theorem C07_e2e_build_bypass {c : Eval.Cfg} {msgs : List BertE.Gen.Messages.Msg} (hT : BertE.C06.TblOK c.build msgs)
+    (hown : HandlersOwnKey c.reg) {o : OptSpec} (hk : c.reg.findOpt "bypass_build_status" = some o)
+    (hp : o.privileged = true) (hkey : c.buildKey ≠ "")
+    {h : Host} {s : Sys} {id : Nat} {orc : List Bool} {sel : List Nat}
+    {p : Eval.Pr} {st : State} {src : BertE.Names.Parsed} {pr : PrInfo} {sc dc : BertE.Git.Commit} {l4 : Loc}
+    {pushW : List Op} (he : Entered c h s id orc sel p st src pr sc dc l4 pushW)
+    (hng : ¬ BertE.C06.e2eAllGreen h s pr l4) :
+    o.dflt.truthy = true ∨ "bypass_build_status" ∈ (envFor c p).authorBypass ∨
+      ∃ cm ∈ seenComments c p, AdminNotAuthor (envFor c p) cm.author ∧
+        names (envFor c p) cm.text "bypass_build_status" := by
+  have hst : (handleCommentsWith (keywordsOf (envFor c p).pfx) (commandOf (envFor c p).pfx) c.reg (envFor c p)
+      (seenComments c p)).state? = some st := by
+    have : handleComments c.reg (envFor c p) (seenComments c p) = .ok st := he.options
+    unfold handleComments at this
+    rw [this]; rfl
+  have hact : bypassActive (envFor c p) st "bypass_build_status" "bypass_build_status" = true := by
+    rcases BertE.C06.e2e_build_pass hT he.build with hb | hg
+    · rcases hb with h1 | h1 | h1
+      · unfold bypassActive; unfold Eval.opt at h1; rw [h1]; rfl
+      · unfold bypassActive; rw [h1]; simp
+      · exact absurd h1 hkey
+    · exact absurd hg hng
+  exact C07_effective hown hst hk hp hact
+
+/-- **C07, end to end: blocking.** When `handle_comments` answers with one of its messages (an unknown keyword, a
+    privileged or author-only keyword from the wrong person: `C07_blocks`), the evaluation ends before the clone
+    with the EMPTY plan: nothing is partly applied — no integration branch, no queue entry, no merge. -/
+theorem C07_e2e_blocks {c : Eval.Cfg} {h : Host} {s : Sys} {id : Nat} {p : Eval.Pr} (orc : List Bool) (sel : List Nat)
+    (hp : h.pr id = some p) {e : Err} (herr : handleComments c.reg (envFor c p) (seenComments c p) = .error e) :
+    (evalPr c h s id orc sel).stage = .early ∧ (evalPr c h s id orc sel).plan.ops = [] ∧
+    (evalPr c h s id orc sel).options = none := by
+  obtain ⟨h1, h2, _⟩ := evalPr_comments_stop orc sel hp (fun st hok => by rw [herr] at hok; cases hok)
+  refine ⟨h1, by rw [h2]; rfl, ?_⟩
+  cases hopt : (evalPr c h s id orc sel).options with
+  | none => rfl
+  | some st =>
+    obtain ⟨p', hp', hok⟩ := evalPr_options hopt
+    rw [hp] at hp'; cases hp'
+    rw [herr] at hok; cases hok
+
+/-! Non-vacuity: the author asks for `bypass_build_status` (blocked, empty plan); the admin asks for it (the pull
+    request enters although no build was reported). -/
+
+def e2eCfg : Eval.Cfg := BertE.C06.exCfg
+
+def e2eHost (cs : List Comment) : Host :=
+  ⟨[{ id := 1, author := "contrib", src := "feature/TEST-1", dst := "development/4.3", status := "OPEN",
+      comments := cs, approvals := [], changeRequests := [], participants := [] }], [], []⟩
+
+example : (evalPr e2eCfg (e2eHost [⟨"contrib", "@robot bypass_build_status".toList⟩]) BertE.C06.exSys 1 [] []).outcome
+      = "NotEnoughCredentials" ∧
+    (evalPr e2eCfg (e2eHost [⟨"contrib", "@robot bypass_build_status".toList⟩]) BertE.C06.exSys 1 [] []).plan.ops = [] ∧
+    (evalPr e2eCfg (e2eHost [⟨"admin", "@robot bypass_build_status".toList⟩]) BertE.C06.exSys 1 [] []).outcome = "Queued" ∧
+    (evalPr e2eCfg (e2eHost []) BertE.C06.exSys 1 [] []).outcome = "BuildNotStarted" := by decide +kernel
+
+example : HandlersOwnKey e2eCfg.reg :=
+  (C07_cmdline_handlers ["bypass_jira_check"] C07_table_handlers C07_table_apr_not_cmdline).ownKey
 
 end BertE.C07
